@@ -1,15 +1,15 @@
 #!/bin/sh
-# tools/confirm_seed.sh <Cxx>: confirm a seeded change produced by a sub-agent in /tmp/seed/<Cxx>
+# tools/confirm_seed.sh <Cxx>: confirm a seeded change produced by a sub-agent in $SEEDROOT/<Cxx> (default /tmp/seed)
 # (change applied + demo test in place): demo fails with the change, suite passes with it, demo passes without it.
-id="$1"; wt=/tmp/seed/$id; cd "$wt" || exit 2
+id="$1"; root="${SEEDROOT:-/tmp/seed}"; wt=$root/$id; cd "$wt" || exit 2
 meta=seed/meta.json
 demo=$(python3 -c "import json;print(json.load(open('$meta'))['demo_path'])" 2>/dev/null)
 run=$(python3 -c "import json;print(json.load(open('$meta'))['demo_run'])" 2>/dev/null)
 mkdir -p build
-echo "== demo with change (expect FAIL)"; sh -c "$run" > /tmp/seed/$id.demo_with.log 2>&1; echo "exit=$?"
-mv "$demo" /tmp/seed/$id.demo.go.keep
-echo "== suite with change (expect ok)"; go test -vet=off -count=1 -timeout 25m ./... > /tmp/seed/$id.suite.log 2>&1; echo "exit=$?"; grep -v "^ok\|no test files" /tmp/seed/$id.suite.log | grep "^FAIL\|^---" | sort | uniq -c | head -20
-cp /tmp/seed/$id.demo.go.keep "$demo"
+echo "== demo with change (expect FAIL)"; sh -c "$run" > $root/$id.demo_with.log 2>&1; echo "exit=$?"
+mv "$demo" $root/$id.demo.go.keep
+echo "== suite with change (expect ok)"; go test -vet=off -count=1 -timeout 25m ./... > $root/$id.suite.log 2>&1; echo "exit=$?"; grep -v "^ok\|no test files" $root/$id.suite.log | grep "^FAIL\|^---" | sort | uniq -c | head -20
+cp $root/$id.demo.go.keep "$demo"
 git apply -R seed/patch.diff || { echo "cannot revert patch"; exit 2; }
-echo "== demo without change (expect PASS)"; sh -c "$run" > /tmp/seed/$id.demo_without.log 2>&1; echo "exit=$?"
+echo "== demo without change (expect PASS)"; sh -c "$run" > $root/$id.demo_without.log 2>&1; echo "exit=$?"
 git apply seed/patch.diff
